@@ -15,7 +15,7 @@ import math, json, random, sys, types, inspect
 from fractions import Fraction as Fr
 import vlib
 from vlib import cq_list, cq_Q, cq_Z, cq_opt, cq_bool
-from c11 import qsqrt, shape_violation, quat_matrix
+from c11 import qsqrt, shape_violation, quat_matrix, pyth_vec
 
 HEADER = ("From Coq Require Import List ZArith QArith PArith.\nImport ListNotations.\n"
           "From Molli Require Import Common.Field3 Model.Rot Model.Join.\n")
@@ -133,6 +133,25 @@ def neighbour_of(fr, p):
         if b["j"] == p:
             return b["i"]
     return None
+
+
+def pythagorize(rng, fr, p):
+    """Re-place atom p at its neighbour + an integer vector with integer norm / 2^k (length 0.75 .. 1.5): the
+    attachment vector then has a rational norm, which keeps the numbers Coq has to reduce small.  Directions are the
+    rational points of the sphere with small height: dense enough to count as general position."""
+    r = neighbour_of(fr, p)
+    if r is None:
+        return False
+    w = pyth_vec(rng)
+    n = math.isqrt(sum(x * x for x in w))
+    k = 1
+    while n / k > 1.5:
+        k *= 2
+    new = [fr["coords"][r][c] + Fr(w[c], k) for c in range(3)]
+    if any(tuple(new) == tuple(x) for i, x in enumerate(fr["coords"]) if i != p):
+        return False
+    fr["coords"][p] = new
+    return True
 
 
 def force_direction(rng, frA, pA, frB, pB, k):
@@ -366,6 +385,9 @@ def gen_join(seed, flavour):
     B = gen_frag(rng, 101, n_ap=rng.choice([1, 1, 2]))
     pA, pB = rng.choice(A["aps"]), rng.choice(B["aps"])
     tag = flavour
+    if rng.random() < 0.8:                 # 20 % keep fully generic (irrational-norm) attachment vectors
+        pythagorize(rng, A, pA)
+        pythagorize(rng, B, pB)
     if flavour == "antiparallel":
         if rng.random() < 0.4:
             axis_align(A, pA, rng.randrange(3), rng.choice([Fr(1), Fr(-1), Fr(3, 2), Fr(-5, 4)]))
@@ -659,6 +681,12 @@ def gen_combine(seed, ascending=True):
     k = rng.choice([2, 2, 3])
     core = gen_frag(rng, 1, n_ap=k, n_min=2, n_max=6, ap_typed=True)
     subs = [gen_frag(rng, 100 * (i + 1) + 1, n_ap=rng.choice([1, 1, 2]), n_min=1, n_max=4, ap_typed=True) for i in range(k)]
+    if rng.random() < 0.85:
+        for p in core["aps"]:
+            pythagorize(rng, core, p)
+        for sfr in subs:
+            for p in sfr["aps"]:
+                pythagorize(rng, sfr, p)
     aps = list(core["aps"])
     if not ascending:
         while aps == sorted(aps):
